@@ -470,37 +470,23 @@ func c23WellFormed(r *vlib.Run, id, mode string, dec *descriptorpb.FileDescripto
 	r.ClassN(mode+": locations inside options", int64(noptlocs))
 }
 
-// pathClass is a stable description of where an unresolvable path points.
+// pathClass is a stable description of where an unresolvable path points:
+// the kind of element (last components, indices dropped) and why it fails.
 func pathClass(fd *descriptorpb.FileDescriptorProto, path []int32, pi pathInfo) string {
-	// walk names as far as they resolve
-	var parts []string
-	var md protoreflect.MessageDescriptor = fd.ProtoReflect().Descriptor()
-	for i := 0; i < len(path) && md != nil; i++ {
-		f := md.Fields().ByNumber(protoreflect.FieldNumber(path[i]))
-		if f == nil {
-			if isOptionsMsg(md) || md.ExtensionRanges().Len() > 0 {
-				parts = append(parts, "(ext)")
-				md = nil
-				break
-			}
-			parts = append(parts, "?")
-			break
-		}
-		parts = append(parts, string(f.Name()))
-		if f.IsList() || f.IsMap() {
-			i++
-		}
-		md = f.Message()
-		if md != nil && !strings.HasPrefix(string(md.FullName()), "google.protobuf.") {
-			parts = append(parts, "…")
-			break
-		}
-	}
 	why := pi.err
 	if k := strings.Index(why, ": "); k >= 0 && strings.HasPrefix(why, "component") {
 		why = why[k+2:]
 	}
-	return strings.Join(parts, ".") + ": " + gen.ClassifyErr(why)
+	why = gen.ClassifyErr(why)
+	// names of generated option schemas vary with the model
+	var sb strings.Builder
+	for _, w := range strings.Fields(why) {
+		if strings.Contains(w, ".") && !strings.HasPrefix(w, "google.protobuf.") && !strings.HasSuffix(w, ".") {
+			w = "<name>"
+		}
+		sb.WriteString(w + " ")
+	}
+	return elementOfPath(path) + ": " + strings.TrimSpace(sb.String())
 }
 
 func sameSpan(a, b []int32) bool {
